@@ -90,7 +90,7 @@ class Writer:
         self.mrname = rng.choice(["multiRef", "multiRef", "accessor", "other"])
         self.spaced = rng.random() < 0.3                      # pretty printed: <x href="#id">(white space)</x>
         # an independent element may re-bind, for itself, a prefix the envelope binds (and that it does not use)
-        self.shadow = (not self.local) and rng.random() < 0.3
+        self.shadow = rng.random() < 0.3
 
     def new_id(self):
         self.n += 1
@@ -412,8 +412,48 @@ def widen(ctx):
     run(ctx)
 
 
+def conflicting_prefixes():
+    """D50 witness: two independent elements bind one prefix differently; the struct's own xsi:type uses its binding."""
+    XSI = "http://www.w3.org/2001/XMLSchema-instance"
+    c = wsdlkit.client(make_wsdl("x:Person"))
+    doc = ('<e:Envelope xmlns:e="%s"><e:Body><m:fResponse xmlns:m="%s"><return href="#id1"/></m:fResponse>'
+           '<multiRef id="id2" xmlns:x="urn:elsewhere" xmlns:soapenc="%s" soapenc:root="0" xmlns:xsi="%s" xmlns:xsd="%s" '
+           'xsi:type="xsd:string">R&amp;D</multiRef>'
+           '<multiRef id="id1" xmlns:x="%s" xmlns:soapenc="%s" soapenc:root="0" xmlns:xsi="%s" xsi:type="x:Employee">'
+           '<name>Bob</name><dept href="#id2"/></multiRef></e:Body></e:Envelope>'
+           % (xmlread.ENV11, TNS, ENC, XSI, XSD, TNS, ENC, XSI)).encode()
+    try:
+        r = c.service.f("x", __inject={"reply": doc})
+        return not (type(r).__name__ == "Employee" and r.dept == "R&D")
+    except Exception:
+        return True
+
+
+def shared_with_children():
+    """D51 witness: one independent array (an untyped item inside) referred to by two structs; the document calls
+    the schema-instance namespace i, not xsi."""
+    c = wsdlkit.client(make_wsdl("x:ArrayOfPerson"))
+    doc = ('<e:Envelope xmlns:e="%s" xmlns:i="%s" xmlns:xsd="%s" xmlns:soapenc="%s" xmlns:x="%s"><e:Body>'
+           '<m:fResponse xmlns:m="%s"><return i:type="soapenc:Array" soapenc:arrayType="x:Person[2]">'
+           '<item i:type="x:Person"><name i:type="xsd:string">A</name><age i:type="xsd:int">1</age><tags href="#t"/></item>'
+           '<item i:type="x:Person"><name i:type="xsd:string">B</name><age i:type="xsd:int">2</age><tags href="#t"/></item>'
+           '</return></m:fResponse><multiRef id="t" soapenc:root="0" i:type="soapenc:Array" '
+           'soapenc:arrayType="xsd:string[1]"><item>x y</item></multiRef></e:Body></e:Envelope>'
+           % (xmlread.ENV11, XSI, XSD, ENC, TNS, TNS)).encode()
+    try:
+        r = canon(c.service.f("x", __inject={"reply": doc}))
+        tags = [dict((k, v) for k, v in p["@Person"]).get("tags") for p in r]
+        return tags != [["x y"], ["x y"]]
+    except Exception:
+        return True
+
+
 def witness(ctx, k):
     import random
+    if k["witness"].get("kind") == "conflicting-prefixes":
+        return conflicting_prefixes()
+    if k["witness"].get("kind") == "shared-with-children":
+        return shared_with_children()
     rng = random.Random(1)
     v = ("struct", "Person", [("name", ("str", "Ann")), ("age", ("int", 3))])
     c = wsdlkit.client(make_wsdl("x:Person"))
